@@ -681,6 +681,37 @@ theorem C15.uniform_grid_nodes (lo hi : K) (n : Nat) (s : Scheme) (hn : 1 ≤ n)
 example : (uniformAxis (0 : ℚ) 1 4 .linear).nodes = [1 / 8, 3 / 8, 5 / 8, 7 / 8] := by
   decide +kernel
 
+/-- The other `nodes_on_bdry` branches of `uniform_grid_fromintv` (`uniformNodeBdry`, executed and
+compared with `uniform_discr(..., nodes_on_bdry=(bl, br))` in all four combinations): the nodes are
+equispaced with the stride for which `n - 1` strides plus half a stride at every end WITHOUT a
+boundary node fill `[lo, hi]`; the first node is `lo` resp. half a stride inside, the last one `hi`
+resp. half a stride inside; strictly increasing for `lo < hi` (so `Axis.Good`, and every theorem
+above applies); without boundary nodes this is `uniformNode`. -/
+theorem C15.uniform_grid_bdry_nodes (bl br : Bool) (lo hi : K) (n : Nat) (s : Scheme) (hn : 2 ≤ n) :
+    (∀ i, i < n → (uniformAxisBdry bl br lo hi n s).c i =
+      lo + ((i : K) + (if bl then 0 else 1 / 2)) * bdryStride bl br lo hi n) ∧
+    (lo < hi → (uniformAxisBdry bl br lo hi n s).Good) ∧
+    (bl = true → (uniformAxisBdry bl br lo hi n s).c 0 = lo) ∧
+    (br = true → (uniformAxisBdry bl br lo hi n s).c (n - 1) = hi) ∧
+    (∀ i, uniformNodeBdry false false lo hi n i = uniformNode lo hi n i) := by
+  refine ⟨fun i hi' => uniformNodeBdry_eq bl br lo hi n i hn hi',
+    fun h => uniformAxisBdry_good bl br lo hi n s h hn, ?_, ?_, ?_⟩
+  · intro hb
+    show uniformNodeBdry bl br lo hi n 0 = lo
+    rw [uniformNodeBdry_eq bl br lo hi n 0 hn (by omega), hb]
+    simp
+  · intro hb
+    show uniformNodeBdry bl br lo hi n (n - 1) = hi
+    have : n - 1 + 1 = n ∧ 1 < n := ⟨by omega, by omega⟩
+    simp [uniformNodeBdry, this, hb]
+  · intro i
+    simp [uniformNodeBdry, uniformNode]
+
+/-- Non-vacuity: `[0, 5]` with 3 nodes and a node on the left / right end only; `[0, 1]` with both. -/
+example : (uniformAxisBdry true false (0 : ℚ) 5 3 .linear).nodes = [0, 2, 4] ∧
+    (uniformAxisBdry false true (0 : ℚ) 5 3 .linear).nodes = [1, 3, 5] ∧
+    (uniformAxisBdry true true (0 : ℚ) 1 3 .linear).nodes = [0, 1 / 2, 1] := by decide +kernel
+
 /-- `Resampling(domain, range, interp)(x)` as executed (`resampling`: dispatch of
 `per_axis_interpolator`, mesh-grid convention on `range.meshgrid`) is the sampling of the
 single-point interpolant of the domain data at every point of the RANGE grid, in C order — for
